@@ -30,7 +30,16 @@ LEVEL_TEXT = ('seeded exploration of backend call sequences under a controlled c
               'executable model of the Django contract; timeouts are the time-dependent part, which only a simulated clock can place exactly.')
 LEVEL_NOTE = 'trusted: ModelDjango (own statement of the contract, cross-read against django.core.cache.backends.base), real Django BaseCache code runs unmodified'
 
-KEYS = ['a', 'b', 'k c', 'n']
+KEYS = ['a', 'b', 'k c', 'n', 1, 1.0, True, '1']     # Django builds 'prefix:version:key' with str(key): 1, 1.0, True and '1' ... 1 and '1' are ONE key, 1.0 and True others
+
+
+def distinct_keys(keys):
+    """For calls that take or return a dict: at most one of the keys that are equal as dict keys (1, 1.0, True)."""
+    out = []
+    for k in keys:
+        if not any(k == o and type(k) is not str and type(o) is not str for o in out):
+            out.append(k)
+    return out
 VALUES = [0, 1, 5, 'v', {'t': [1, 2]}, None, {'b': '00'}, {'l': [1]}, {'f': '1.5'}, '', {'l': []}, {'f': '0.0'}, -1]
 TIMEOUTS = ['DEFAULT', 'DEFAULT', None, 0, -1, 1, 2.5, 100]
 
@@ -39,11 +48,16 @@ def gen_case(seed, tier):
     rng = random.Random('%s/c19' % seed)
     params = {'TIMEOUT': rng.choice((300, 300, None, 5, 0, 2.5)), 'KEY_PREFIX': rng.choice(('', '', 'p', 'x:y')),
               'VERSION': rng.choice((1, 1, 2)), 'SHARDS': rng.choice((1, 2, 3, 5, 8, 13))}
+    if rng.random() < 0.25:
+        # a KEY_FUNCTION that depends on context (the multi-tenant pattern): it is consulted on every operation
+        params['KEY_FUNCTION'] = 'tenant'
     n = rng.choice((15, 40, 80)) if tier == 'quick' else rng.choice((30, 80, 150))
     prog = []
     for i in range(n):
         r = rng.random()
         k = rng.choice(KEYS)
+        if params.get('KEY_FUNCTION') and rng.random() < 0.15:
+            prog.append({'op': 'tenant', 't': rng.choice((0, 1, 2))})
         ver = rng.choice((None, None, None, 1, 2, 3, 0))
         to = rng.choice(TIMEOUTS)
         v = rng.choice(VALUES)
@@ -64,11 +78,11 @@ def gen_case(seed, tier):
         elif r < 0.67:
             op = {'op': rng.choice(('has_key', 'in')), 'k': k, 'version': ver}
         elif r < 0.71:
-            op = {'op': 'get_many', 'ks': rng.sample(KEYS, rng.randint(0, 3)), 'version': ver}
+            op = {'op': 'get_many', 'ks': distinct_keys(rng.sample(KEYS, rng.randint(0, 3))), 'version': ver}
         elif r < 0.75:
-            op = {'op': 'set_many', 'items': [[kk, rng.choice(VALUES)] for kk in rng.sample(KEYS, rng.randint(0, 3))], 'timeout': to, 'version': ver}
+            op = {'op': 'set_many', 'items': [[kk, rng.choice(VALUES)] for kk in distinct_keys(rng.sample(KEYS, rng.randint(0, 3)))], 'timeout': to, 'version': ver}
         elif r < 0.78:
-            op = {'op': 'delete_many', 'ks': rng.sample(KEYS, rng.randint(0, 3)), 'version': ver}
+            op = {'op': 'delete_many', 'ks': distinct_keys(rng.sample(KEYS, rng.randint(0, 3))), 'version': ver}
         elif r < 0.84:
             op = {'op': 'get_or_set', 'k': k, 'v': v, 'callable': rng.random() < 0.4, 'timeout': to, 'version': ver}
         elif r < 0.89:
@@ -107,10 +121,13 @@ class ModelDjango:
         self.data = {}
         self.expired_lookups = 0
         self.ties = 0
+        self.tenant = None
 
     def fk(self, key, version):
         if version is None:
             version = self.version
+        if self.tenant is not None:
+            return 't%d/%s:%s:%s' % (self.tenant[0], self.prefix, version, key)
         return '%s:%s:%s' % (self.prefix, version, key)
 
     def expire_at(self, timeout, now):
@@ -216,8 +233,8 @@ def step(cache, m, op, now, DEFAULT):
         got = _norm(lambda: op['k'] in cache)
         return got, ('ok', 'True' if m.live(m.fk(op['k'], None), now) else 'False'), False
     if name == 'get_many':
-        got = _norm(lambda: sorted((k, fp(v)) for k, v in cache.get_many(op['ks'], *pa, **kw).items()))
-        want = sorted((k, m.live(m.fk(k, ver), now)[0]) for k in op['ks'] if m.live(m.fk(k, ver), now))
+        got = _norm(lambda: sorted((repr(k), fp(v)) for k, v in cache.get_many(op['ks'], *pa, **kw).items()))
+        want = sorted((repr(k), m.live(m.fk(k, ver), now)[0]) for k in op['ks'] if m.live(m.fk(k, ver), now))
         return got, ('ok', fp(want)), False
     if name == 'set_many':
         items = {k: vals.dec(v) for k, v in op['items']}
@@ -288,11 +305,20 @@ def run_case(case):
     try:
         mod = seams.install_django()
         from django.core.cache.backends.base import DEFAULT_TIMEOUT
+        tenant = None
+        if params.get('KEY_FUNCTION') == 'tenant':
+            tenant = [0]
+            params['KEY_FUNCTION'] = lambda key, key_prefix, version: 't%d/%s:%s:%s' % (tenant[0], key_prefix, version, key)
         cache = mod.DjangoCache(world.path('dj'), params)
         m = ModelDjango(params)
+        m.tenant = tenant
         for idx, op in enumerate(case['prog']):
             if op['op'] == 'advance':
                 sim.advance(op['dt'])
+                continue
+            if op['op'] == 'tenant':
+                if tenant is not None:
+                    tenant[0] = op['t']
                 continue
             nops += 1
             now = sim.now
